@@ -48,6 +48,18 @@ Theorem C04_dep_safety : forall b106 lri lrt did nad n fuel script P R timeout r
 Proof. intros. apply dep_safety_thm; try assumption. apply valid_mk; assumption. Qed.
 Print Assumptions C04_dep_safety.
 
+(* --- any single lost or corrupted frame per protocol step is recovered transparently: for EVERY script in which each
+       faulty round (request or response lost or corrupted) is followed by two fault free rounds, all payload sizes
+       and conversation lengths, the result is exact (exchange time-out at least two response waiting times) --- *)
+Theorem C04_dep_single_fault_recovered : forall b106 lri lrt did nad n fuel script P R timeout release,
+  did_valid did -> Z.max 0 timeout < Z.of_nat fuel -> 2 <= timeout -> Sparse script ->
+  nonempty_all P -> nonempty_all R -> fits n P -> fits n R -> (length P <= length R)%nat ->
+  let o := conversation n fuel (mk_icfg b106 lrt did nad) (mk_tcfg b106 lri did) script P (app_of R) timeout release in
+  o_ini o = map IOk (firstn (length P) R) /\
+  exists ttail, o_tgt o = map TOk P ++ ttail /\ tail_ok ttail.
+Proof. intros. apply dep_single_fault_recovered_thm; try assumption. apply valid_mk; assumption. Qed.
+Print Assumptions C04_dep_single_fault_recovered.
+
 (* --- one protocol step (send_dep_req_recv_dep_res) under every script: it fails, or it returns exactly the
        response the target produced when it accepted the request; the target accepts the request at most once --- *)
 Theorem C04_step_safe : forall ic tc, valid_cfg ic tc ->
@@ -82,6 +94,7 @@ Example C04_nonvacuous :
              P (app_of R) 8 (Some true) in
   o_ini o = map IOk R /\ o_tgt o = map TOk P ++ [TNone] /\
   did_valid (Some 5) /\ nonempty_all P /\ fits 200 R /\
+  Sparse [(FD, FC); (FD, FD); (FD, FD); (FL, FD); (FD, FD); (FD, FD); (FD, FD); (FD, FL); (FD, FD); (FD, FD)] /\
   o_ini (conversation 200 20 (mk_icfg false 3 None None) (mk_tcfg false 3 None)
            [(FL, FD); (FL, FD); (FL, FD)] [[1]] (app_of [[2]]) 8 None) = [IErr ProtocolError].
 Proof. vm_compute. repeat split; repeat constructor; try discriminate; auto. Qed.
